@@ -98,3 +98,31 @@ Theorem C06_form_value_rejects_complete_query_refuted :
                  /\ handler_called (qwrapper read_form_value decl r) = false.
 Proof. exact form_value_rejects_complete_query_refuted. Qed.
 Print Assumptions C06_form_value_rejects_complete_query_refuted.
+
+(** The wrapper TEMPLATES themselves (coq/Gen/Wrappers.v: the seven server wrapper templates of /repo, translated to terms
+    of Model/Tmpl.v on every run; [render] = the template engine, checked against text/template on every run).
+    Whatever the operation - any number of parameters in any location, required or not, styled, JSON or pass-through, any
+    option the templates read - the text a wrapper template renders leaves (return) after every call of the framework's
+    error path before it closes a block, enters the middleware chain or calls the handler, and it calls the user's handler
+    exactly once.  A template that goes on after a report is rejected by the criterion and does run the handler. *)
+From V Require Import Model.Tmpl Gen.Wrappers Proofs.TmplProofs Proofs.WrappersOk.
+Theorem C06_every_wrapper_template_leaves_after_reporting : forall name t e,
+  In (name, t) wrappers -> stops_after_report (render t e) = true.
+Proof. exact every_wrapper_leaves_after_reporting. Qed.
+Print Assumptions C06_every_wrapper_template_leaves_after_reporting.
+
+Theorem C06_every_wrapper_template_calls_the_handler_once : forall name t e,
+  In (name, t) wrappers -> handler_calls (render t e) = 1.
+Proof. exact every_wrapper_calls_the_handler_once. Qed.
+Print Assumptions C06_every_wrapper_template_calls_the_handler_once.
+
+Theorem C06_criterion_sound : forall t, segments_stop t = true -> forall e, stops_after_report (render t e) = true.
+Proof. exact segments_stop_sound. Qed.
+Print Assumptions C06_criterion_sound.
+
+Theorem C06_forgetful_template_refuted :
+  segments_stop forgetful = false
+  /\ let e := EnvL [] [("params"%string, [EnvL [] []])] in
+     render forgetful e = [GOpen; GReport; GClose; GHandler; GClose] /\ stops_after_report (render forgetful e) = false.
+Proof. exact forgetful_rejected_and_wrong. Qed.
+Print Assumptions C06_forgetful_template_refuted.
